@@ -39,7 +39,7 @@ EXPLANATION = (
     "marked CANTPROCESS, three-valued evaluation with path-refined value sets of the search_id marks shows that checkTypes/checkEnts/"
     "checkItem/ENUMcanBeProcessed can neither mark an object CANTPROCESS nor the schema UNPROCESSED, hence print_schemas_separate "
     "takes the suffix-0 branch and one module is written. "
-    "Not decided: that the generated text is valid Python beyond identifiers, attribute/constructor argument order in detail, "
+    "(R6) the emission sites of one numbered name template (`inherited%i__%s`: formal parameter of __init__ and argument of the parent's __init__) stand under the same schema predicates. Not decided: that the generated text is valid Python beyond identifiers, attribute/constructor argument order in detail, "
     "select members and enumeration items being complete.")
 
 WFLAGS = ("-Wno-everything", "-Wimplicit-function-declaration", "-Wint-conversion", "-Wincompatible-pointer-types", "-Wreturn-type")
